@@ -22,6 +22,9 @@ def spacing_of(fee) -> int:
     return int(Decimal(str(fee)) * 200)
 
 
+SERIES = ("netAmount0", "netAmount1", "closeTick", "openTick", "lowestTick", "highestTick", "inAmount0", "inAmount1", "currentLiquidity")
+
+
 def raw_frame(mw, index) -> pd.DataFrame:
     """Frame exactly as load_uni_v3_data builds it before fillna: float ticks (NaN allowed), Decimal amounts."""
     n = len(index)
@@ -62,11 +65,21 @@ def build_uni(sim, mw):
     pool = pool_of(sim, mw)
     key = MarketInfo(mw["name"], MarketTypeEnum.uniswap_v3)
     market = UniLpMarket(key, pool)
-    df = raw_frame(mw, sim.index)
+    pre = mw.get("pre")  # rows of history before the run (list of per-minute dicts): the supplied frame is then a slice of a
+    index, src = sim.index, mw  # longer loaded one, i.e. its derived columns (price = previous close) come from outside the slice
+    if pre:
+        index = pd.date_range(end=sim.index[0] - pd.Timedelta("1min"), periods=len(pre), freq="1min").append(sim.index)
+        src = dict(mw)
+        for name in SERIES:
+            if mw.get(name) is not None:
+                src[name] = [r.get(name, mw[name][0]) for r in pre] + list(mw[name])
+    df = raw_frame(src, index)
     df = fillna(df)  # real post-processing
     if pd.isna(df.iloc[0]["closeTick"]):
         df = df.bfill()
     _add_statistic_column(df, pool)  # real: price = previous close
+    if pre:
+        df = df.loc[sim.index[0]:]
     market.data = df
     sim.mdata[mw["name"]] = {"pool": pool, "mw": mw}
     return market
